@@ -1,7 +1,7 @@
 (* C04 — CSR multiplexer reads are atomic snapshots and side-effect exact.
    Statements only; proofs in Proofs/MuxBasic.v, Proofs/MuxRead.v. *)
 From Coq Require Import ZArith List Bool Lia.
-From Soc Require Import Lib.Bits Model.Mux Proofs.MuxBasic.
+From Soc Require Import Lib.Bits Model.Mux Model.MuxSpec Proofs.MuxBasic Proofs.MuxRead.
 Import ListNotations.
 Open Scope Z_scope.
 
@@ -11,3 +11,111 @@ Theorem C04_r_strobe_exact : forall c s i k r, nth_error (c_regs c) k = Some r -
   nth_error (o_rstb (out c s i)) k = Some (r_rd r && i_rstb i && (i_addr i =? r_start r)).
 Proof. exact r_strobe_exact. Qed.
 Print Assumptions C04_r_strobe_exact.
+
+(* bus.r_data is zero out of reset. *)
+Theorem C04_r_data_zero_at_reset : forall c, bus_rdata c (init c) = 0.
+Proof. exact bus_rdata_init. Qed.
+Print Assumptions C04_r_data_zero_at_reset.
+
+(* bus.r_data is zero in every cycle that does not follow a read strobe inside a readable register:
+   every well-formed configuration, EVERY input history (conforming or not). *)
+Theorem C04_r_data_zero_when_idle : forall c is i, wf_cfg c ->
+  (i_rstb i = false \/
+   forall r, In r (c_regs c) -> r_rd r = true -> ~ (r_start r <= i_addr i < r_stop r)) ->
+  bus_rdata c (next c (state_after c (init c) is) i) = 0.
+Proof. exact r_data_zero_when_idle. Qed.
+Print Assumptions C04_r_data_zero_when_idle.
+
+(* Atomic snapshot.  If the first chunk of readable register number k was read at cycle t0 and no first
+   chunk of any readable register has been read since, then a read of chunk j of that register at cycle
+   t >= t0 returns, one cycle later, word j of the value the register presented AT t0 - whatever the
+   register presents afterwards and whatever else happens in between (writes, idle cycles, reads of
+   other chunks of any register, unmapped accesses).  The right-hand side mentions neither the shadow
+   size nor the chunk sharing. *)
+Theorem C04_read_atomic : forall c is t0 t k r j i0 it, wf_cfg c ->
+  nth_error (c_regs c) k = Some r -> r_rd r = true ->
+  nth_error is t0 = Some i0 -> i_rstb i0 = true -> i_addr i0 = r_start r ->
+  (t0 <= t)%nat ->
+  (forall u, (t0 < u <= t)%nat -> ~ any_first_read c is u) ->
+  nth_error is t = Some it -> i_rstb it = true -> i_addr it = r_start r + j -> 0 <= j < reg_len r ->
+  rdata_at c is (S t) = word (c_dw c) (r_width r) j (rval_at is t0 k (r_width r)).
+Proof. exact read_atomic. Qed.
+Print Assumptions C04_read_atomic.
+
+(* Zero when idle, by trace position: bus.r_data is zero in cycle 0 and in every cycle whose predecessor
+   is not a read strobe inside a readable register - ALL input sequences. *)
+Theorem C04_r_data_zero_trace : forall c is t, wf_cfg c -> (t <= length is)%nat ->
+  (forall t' i, t = S t' -> nth_error is t' = Some i ->
+     i_rstb i = false \/
+     forall r, In r (c_regs c) -> r_rd r = true -> ~ (r_start r <= i_addr i < r_stop r)) ->
+  rdata_at c is t = 0.
+Proof. exact r_data_zero_trace. Qed.
+Print Assumptions C04_r_data_zero_trace.
+
+(* The shadow size, hence the sharing limit (shadow_overlaps) it was computed from, is unobservable on
+   the read path: two admissible configurations of the same layout return the same data under the
+   premises of C04_read_atomic. *)
+Theorem C04_read_size_independent : forall c1 c2 is t0 t k r j i0 it, wf_cfg c1 -> wf_cfg c2 ->
+  c_dw c1 = c_dw c2 -> c_regs c1 = c_regs c2 ->
+  nth_error (c_regs c1) k = Some r -> r_rd r = true ->
+  nth_error is t0 = Some i0 -> i_rstb i0 = true -> i_addr i0 = r_start r ->
+  (t0 <= t)%nat ->
+  (forall u, (t0 < u <= t)%nat -> ~ any_first_read c1 is u) ->
+  nth_error is t = Some it -> i_rstb it = true -> i_addr it = r_start r + j -> 0 <= j < reg_len r ->
+  rdata_at c1 is (S t) = rdata_at c2 is (S t).
+Proof. exact read_size_independent. Qed.
+Print Assumptions C04_read_size_independent.
+
+(* ---- non-vacuity: an unaligned layout whose registers share read chunks, and a 3-chunk read of
+   register 2 (= [5,8), 20 bits) during which every register changes its value, another register's
+   non-first chunk is read, a write and an unmapped read occur. *)
+Definition ex_regs : list reg :=
+  [ {| r_start := 2; r_stop := 3; r_width := 8;  r_rd := true; r_wr := true |};
+    {| r_start := 3; r_stop := 5; r_width := 12; r_rd := true; r_wr := true |};
+    {| r_start := 5; r_stop := 8; r_width := 20; r_rd := true; r_wr := false |} ].
+Definition ex_c : cfg := {| c_dw := 8; c_regs := ex_regs; c_Sr := 4; c_Sw := 2 |}.
+Definition ex_c8 : cfg := {| c_dw := 8; c_regs := ex_regs; c_Sr := 8; c_Sw := 2 |}.
+Definition ex_rd (a : Z) (vs : list Z) : inp :=
+  {| i_addr := a; i_rstb := true; i_wstb := false; i_wdata := 0; i_rvals := vs |}.
+Definition ex_is : list inp :=
+  [ ex_rd 5 [0x11; 0x222; 0xABCDE];      (* t0 = 0: first chunk of register 2 *)
+    ex_rd 4 [0x33; 0x444; 0x12345];      (* second chunk of register 1, which shares read chunk 2 *)
+    ex_rd 6 [0x55; 0x666; 0x6789A];      (* second chunk of register 2 *)
+    {| i_addr := 2; i_rstb := false; i_wstb := true; i_wdata := 0xFF; i_rvals := [0; 0; 0] |};
+    ex_rd 7 [1; 2; 3];                   (* third chunk of register 2 *)
+    ex_rd 9 [1; 2; 3] ].                 (* unmapped *)
+
+Example C04_nonvacuous :
+  mk_cfg 8 ex_regs None = Some ex_c /\
+  (* the three registers occupy 6 addresses but only 3 read chunks: chunk 2 is shared by all three *)
+  map (fun r => map (decode (c_Sr ex_c) r) (addrs r)) ex_regs = [[2]; [3; 2]; [1; 2; 3]] /\
+  table (c_Sr ex_c) (rregs ex_c) = [2; 3; 1] /\
+  (* bus.r_data in cycles 0..6: words 0xDE, 0xBC, 0xA of the value 0xABCDE presented at cycle 0 *)
+  map (rdata_at ex_c ex_is) [0; 1; 2; 3; 4; 5; 6]%nat = [0; 0xDE; 0xBC; 0xBC; 0; 0xA; 0] /\
+  map (fun j => word 8 20 j (rval_at ex_is 0 2 20)) [0; 1; 2] = [0xDE; 0xBC; 0xA] /\
+  (* with sharing limit 1 the read shadow has 8 entries; the protocol-conforming reads agree, and only
+     the non-conforming read at cycle 1 (a second chunk whose first chunk was never read) tells them apart *)
+  mk_cfg 8 ex_regs (Some 1) = Some ex_c8 /\
+  map (rdata_at ex_c8 ex_is) [0; 1; 2; 3; 4; 5; 6]%nat = [0; 0xDE; 0; 0xBC; 0; 0xA; 0].
+Proof. vm_compute. repeat split; reflexivity. Qed.
+
+Example C04_ex_wf : wf_cfg ex_c.
+Proof.
+  split; [reflexivity|]. split; [cbn; lia|].
+  split; [exists 2|exists 1]; (split; [reflexivity|]); (split; [lia|]);
+    cbn [rregs wregs ex_c c_regs ex_regs filter r_rd r_wr In]; intros r H;
+    repeat (destruct H as [<-|H]; [vm_compute; discriminate|]); contradiction.
+Qed.
+
+(* every premise of C04_read_atomic holds for the last chunk (j = 2, read at cycle 4) of this trace *)
+Example C04_read_atomic_instance : rdata_at ex_c ex_is 5 = 0xA.
+Proof.
+  rewrite (C04_read_atomic ex_c ex_is 0 4 2
+             {| r_start := 5; r_stop := 8; r_width := 20; r_rd := true; r_wr := false |} 2
+             (ex_rd 5 [0x11; 0x222; 0xABCDE]) (ex_rd 7 [1; 2; 3]) C04_ex_wf);
+    try reflexivity; try lia; try (cbv [reg_len r_start r_stop]; lia).
+  intros u Hu (i & r & Hn & Hin & Hrd & Hs & Ha).
+  assert (Hc : (u = 1 \/ u = 2 \/ u = 3 \/ u = 4)%nat) by lia.
+  destruct Hc as [-> | [-> | [-> | ->]]]; cbn in Hn; injection Hn as <-; cbn in Hs, Ha; try discriminate;
+    repeat (destruct Hin as [<-|Hin]; [cbn in Ha; discriminate|]); contradiction.
+Qed.
